@@ -402,16 +402,12 @@ func (m *Manager) writeSnapshot(w io.Writer) error {
 			return ids[i].Bucket < ids[j].Bucket
 		})
 		for _, id := range ids {
-			meta := version.ValueLogs[id]
-			metaCopy := meta
-			if meta.Valid {
-				if err := writeEdit(w, Edit{Type: EditUpdateValueLog, ValueLog: &metaCopy}); err != nil {
-					return err
-				}
-			} else {
-				if err := writeEdit(w, Edit{Type: EditDeleteValueLog, ValueLog: &metaCopy}); err != nil {
-					return err
-				}
+			// An update edit carries Offset and Valid verbatim. Writing invalid
+			// segments as delete edits would reset their offset on reload, so
+			// the reloaded version would differ from the one in memory.
+			metaCopy := version.ValueLogs[id]
+			if err := writeEdit(w, Edit{Type: EditUpdateValueLog, ValueLog: &metaCopy}); err != nil {
+				return err
 			}
 		}
 	}
